@@ -51,3 +51,15 @@ package nt
 //@   assert before "if (a.Byte(0) & b.Byte(0) & 0b10) != 0 {": jac(a, b) == ite(a % 4 == 3 && b % 4 == 3, -1, 1) * jac(b, a)
 //@   assert after "if (a.Byte(0) & b.Byte(0) & 0b10) != 0 {": ret * jac(b, a) == jac(x % y, y) && (ret == 1 || ret == -1)
 //@   assert after "bModA := b.Mod(aAsNatPlus)": jac(bModA, aAsNatPlus) == jac(b, a) && aAsNatPlus == a && bModA >= 0
+
+// ---------------------------------------------------------------- generated primes have the requested length (C17)
+// Every candidate handed to the primality tests has EXACTLY `bits` bits and is 3 mod 4: the buffer has ceil(bits/8)
+// bytes, its first (most significant) byte has exactly ((bits-1) mod 8)+1 significant bits with the top one set, and
+// the last byte ends in binary 11. (What is returned is built from the same buffer.)
+//@ func GenerateBlumPrime
+//@   property C17
+//@   loop #1
+//@     invariant bits >= 16 && numBytes == (bits + 7) / 8 && len(buf) == numBytes && topBits == (bits - 1) % 8 + 1 && topByteMask == pow2(topBits) - 1 && topByteMSB == pow2(topBits - 1)
+//@   loop #2
+//@     invariant true
+//@   assert before "candidate.SetBytes(buf)" cases topBits 1 8: len(buf) == (bits + 7) / 8 && pow2((bits - 1) % 8) <= buf[0] && buf[0] < pow2((bits - 1) % 8 + 1) && buf[len(buf)-1] % 4 == 3
